@@ -58,7 +58,18 @@ func corruptBytes(tp *simrt.Tape, data []byte) ([]byte, corruption) {
 	out := append([]byte(nil), data...)
 	n := len(out)
 	c := corruption{}
-	switch tp.Fault(8) {
+	switch tp.Fault(10) {
+	case 8, 9:
+		// a (delta) varint replaced by a huge one: offsets/postings close to 2^32
+		c.Kind = "varint-huge"
+		c.Pos = pickPos(tp, n)
+		enc := [][]byte{{0xff, 0xff, 0xff, 0xff, 0x0f}, {0xf0, 0xff, 0xff, 0xff, 0x0f}, {0xff, 0xff, 0xff, 0xff, 0xff, 0xff, 0xff, 0xff, 0xff, 0x01}, {0x80, 0x80, 0x80, 0x80, 0x08}}[tp.Fault(4)]
+		c.Len = len(enc)
+		for i, b := range enc {
+			if c.Pos+i < n {
+				out[c.Pos+i] = b
+			}
+		}
 	case 0:
 		c.Kind = "truncate"
 		c.Pos = pickPos(tp, n)
